@@ -10,6 +10,7 @@ CONSTANTS
   FooterSet <- FooterSetDef
   AadSet <- AadSetDef
   Passwords = {pw1, pw2}
+  MCPurposes = {"local", "public"}
   Vers = {2, 4}
   MaxTokens = 0
   MaxBlobs = 0
